@@ -994,7 +994,13 @@ def run(ctx):
                          "> len_et (coded series) / negative (event times), 1-d / 2-3 channels with shared or per-channel "
                          "events, overlapping (FIR) or separated (eta/ets/et_data) placements inside the series plus "
                          "edge placements (cut responses, wrap of np.roll, IndexError/ValueError), planted dyadic responses "
-                         "or noise data, both flags; non-trivial = the call returned an estimate" % big)
+                         "or noise data (with DC offsets), both flags; data magnitudes 2^-60..2^40 (tolerances relative to max|data|, in "
+                         "Coq and in the oracle); alternative input forms (Fortran / strided / derived / int64 arrays, series built "
+                         "by sampling_rate incl. rates with inexact seconds*Hz, event times as ps / float seconds / TimeArray, "
+                         "float or numpy len_et and offset, positional call); oracle-only and K 'large' cases: len_et up to 32 with "
+                         "3 types (96 columns), series of 509..8193 samples, up to ~2000 events, event times beyond 2^53 ps; "
+                         "eta/ets are also compared with their definition computed in Fractions from the input data; "
+                         "non-trivial = the call returned an estimate" % big)
     return ctx.finish(
         explanation=("P: Coq theorems over an executable model of fir_design_matrix / fir / EventRelatedAnalyzer "
                      "(FIR, eta, ets, et_data; coded series and event times) for all lengths, placements, type counts, "
